@@ -116,6 +116,23 @@ def judge(family, case, rec):
             continue
         rec.count("ok:returned")
         n_ok += 1
+        if rs % 3 == 0 and isinstance(res, list):
+            # the caller edits the lists he was given, then asks again with the same seed: same answer expected
+            import copy as _copy
+            snapshot = _copy.deepcopy(res)
+            for iv in res:
+                if isinstance(iv, list):
+                    iv.extend([0, 0, 99])
+            res.append([7])
+            try:
+                again = gens.intervention_targets(p, K, size, replace=replace, random_state=rs)
+                rec.count("repeat-after-caller-edited-result")
+                if [[int(v) for v in iv] for iv in again] != [[int(v) for v in iv] for iv in snapshot]:
+                    rec.violation("C12:result-depends-on-edited-earlier-result", family, sub,
+                                  "after the caller edited the lists returned by an earlier call, the same seeded call returns %r instead of %r" % (again, snapshot))
+            except Exception as e:
+                rec.exception_violation("C12:repeat-exception", family, sub, "the repeated call raised", e)
+            res = snapshot
         ok = isinstance(res, list) and len(res) == K
         if not ok:
             rec.violation("C12:wrong-number-of-interventions", family, sub, "returned %r, expected %d interventions" % (res, K))
